@@ -35,7 +35,10 @@ fn main() {
         }
     }
     let code = match id {
+        "C03" => c03::run_check(replay),
+        "C16" => c16::run(replay),
         "C17" => c17::run(replay),
+        "C18" => c18::run_check(replay),
         _ => {
             eprintln!("unknown property id {}", id);
             2
